@@ -245,7 +245,7 @@ inline bool parse_gexpr(
     arity = 2;
   else if (n.name == "rep" || (!skipper && (n.name == "opt" || n.name == "plus" || n.name == "not" || n.name == "fatal")))
     arity = 1;
-  else if (!(skipper ? (n.name == "eps" || n.name == "space") : n.name == "any"))
+  else if (!(skipper ? (n.name == "eps" || n.name == "space") : (n.name == "any" || n.name == "k1" || n.name == "k2")))
     return false;
   if (want_arg != has_arg)
     return false;
@@ -279,6 +279,8 @@ inline bool consumes(gast const &a, std::size_t const i)
     return true;
   if (n.name == "str")
     return !n.arg.empty();
+  if (n.name == "k2")
+    return true;
   if (n.name == "seq")
     return consumes(a, n.kids[0]) || consumes(a, n.kids[1]);
   if (n.name == "alt")
@@ -392,6 +394,19 @@ private:
       return this->add(fp::make_ignore(make_cset<fp::basic_char_set<Ch>>(n.arg)));
     if (n.name == "str")
       return this->add(fp::basic_string<Ch>{to_text<Ch>(n.arg)});
+    if (n.name == "k1")
+      // children held BY VALUE (no reference, no type erasure): *(lit a | lit \n) >> !any
+      return this->add(fp::make_ignore(
+          *(fp::basic_literal<Ch>{static_cast<Ch>(97)} | fp::basic_literal<Ch>{static_cast<Ch>(10)}) >>
+          !fp::make_ignore(fp::basic_char<Ch>{})));
+    if (n.name == "k2")
+    {
+      // children held by fcppt::unique_ptr: -(lit a) >> +(set{a, \n})
+      auto a = fp::make_base<Ch, Sk>(fp::basic_literal<Ch>{static_cast<Ch>(97)});
+      auto b = fp::make_base<Ch, Sk>(
+          fp::make_ignore(fp::basic_char_set<Ch>{static_cast<Ch>(97), static_cast<Ch>(10)}));
+      return this->add(fp::make_ignore(-std::move(a) >> +std::move(b)));
+    }
     if (n.name == "seq")
     {
       auto a = kid(0);
